@@ -1052,33 +1052,12 @@ def _a38(c):
     return [int(k) for k in (-np.abs(w)).argsort()] != list(range(I))
 
 
-# C14-F4 (sptensor.nvecs forms y = tnt^T tnt in the dtype of vals): integer vals of ANY width on the iterative path — ARPACK's eigs rejects
-#   an integer matrix: ValueError, every facet; 8/16-bit integers on the dense-solver path — the products wrap (sp_gram when they do) and
-#   scipy.linalg.eig runs in single precision; int32 — only when an entry of the exact Gram matrix leaves the int32 range; float32 —
-#   single precision on both paths.  int64 on the dense-solver path is right (compared unattributed).
-def _f4(c):
-    a = c.args
-    vd = a.get("vdtype")
-    if not vd or vd == "float64" or not c.op.startswith("sp_") or a.get("repr", "sparse") != "sparse":
-        return False
-    I, r = a["shape"][a["n"]], a["r"]
-    if vd != "float32" and r < I - 1:
-        return True
-    if vd in NARROW or vd == "float32":
-        return True
-    if vd == "int32":
-        return any(abs(x) >= 2 ** 31 for row in _py_gram(a) for x in row)
-    return False
-
-
-# C14-F5 (ttensor.nvecs multiplies core and factors in their own dtype): 8/16-bit integer holders whose intermediate products
-#   (U_m^T U_m, core x_m V_m, U_n G_(n), Y) leave the type's range — decided on the request in exact integers (cu.tucker_wraps)
-def _f5(c):
-    a = c.args
-    return c.op == "nvecs" and a.get("hdtype") in NARROW and a.get("repr") in ("ttensor", "ttensor_sp") and cu.tucker_wraps(a)
-
-
-TRIGGERS = {"sparse_nvecs": _a38, "sparse_vals_dtype": _f4, "tucker_holder_dtype": _f5}
+# C14-F4 (sptensor.nvecs formed y = tnt^T tnt in the dtype of vals) and C14-F5 (ttensor.nvecs multiplied core and factors in their own
+#   dtype) are repaired in /repo (6aef7c8: tnt cast to float64; 4b7dc0e: float64 copies of core and factors at the top of nvecs): holders
+#   of an integer / float32 element type (keys vdtype / hdtype) are ORDINARY cases with one accepted behaviour, the float64 answer
+#   (theorems C14_gram_sparse_held, C14_gram_tucker_held); no trigger, no witness attribution.  The former witnesses are the fixed
+#   regression inputs _REGRESSION_F4 / _REGRESSION_F5 of the variants stream.
+TRIGGERS = {"sparse_nvecs": _a38}
 
 
 def _wit_a38():
@@ -1099,32 +1078,4 @@ def _wit_a38():
     return "; ".join(msgs) or None
 
 
-def _wit_f4():
-    import numpy as np
-    import pyttb as ttb
-    S = ttb.sptensor(np.array([[0, 0], [1, 1], [2, 0], [3, 2]]), np.array([[3], [1], [2], [1]]), (4, 3))
-    try:
-        v = np.real(np.asarray(S.nvecs(0, 1)))
-    except Exception as ex:
-        return f"sptensor.nvecs(0,1) on a 4x3 tensor with integer vals raises {type(ex).__name__}: {str(ex)[:60]}"
-    vd = ttb.tensor(S.full().data.astype(float)).nvecs(0, 1)
-    dP = float(np.max(np.abs(v @ v.T - vd @ vd.T)))
-    return None if dP < 1e-9 else f"sptensor.nvecs(0,1) with integer vals: projector differs from the dense tensor's by {dP:.3g}"
-
-
-def _wit_f5():
-    import numpy as np
-    import pyttb as ttb
-    core = np.array([5, 0, 7, 11, 3, 9, 0, 12]).reshape((2, 2, 2), order="F")
-    Us = [np.array([[1, 12], [9, 4], [0, 7], [11, 2]]), np.array([[3, 8], [10, 1], [6, 6]]), np.array([[2, 9], [12, 5]])]
-    T8 = ttb.ttensor(ttb.tensor(core.astype(np.uint8)), [u.astype(np.uint8) for u in Us])
-    Tf = ttb.ttensor(ttb.tensor(core.astype(float)), [u.astype(float) for u in Us])
-    try:
-        v, vd = T8.nvecs(0, 2), Tf.nvecs(0, 2)
-    except Exception as ex:
-        return f"ttensor.nvecs with uint8 holders raises {type(ex).__name__}"
-    dP = float(np.max(np.abs(v @ v.T - vd @ vd.T)))
-    return None if dP < 1e-9 else f"ttensor.nvecs(0,2) with uint8 core/factors: projector differs from the float64 holders' by {dP:.3g}"
-
-
-WITNESSES = {"A-38": _wit_a38, "C14-F4": _wit_f4, "C14-F5": _wit_f5}
+WITNESSES = {"A-38": _wit_a38}
